@@ -42,6 +42,15 @@ pub struct CfgOpts {
     /// per mille of X25519 sessions in which a pre-shared remote static key is given in a
     /// non-canonical encoding (p + k, k in 2..=18), which RFC 7748 requires to be accepted
     pub noncanonical_rs: u32,
+    /// per mille of sessions in which one node's resolver refuses a primitive (all requests or
+    /// only the k-th): the build must fail with an error, never panic
+    pub deny_any: u32,
+    /// per mille of sessions in which one node's resolver has no random source (build result is
+    /// a don't-care; if it builds, every ephemeral must still come from the resolver's source)
+    pub deny_rng: u32,
+    /// per mille of nodes that are given a PSK in a slot the protocol name does not use (the
+    /// builder takes it; it must never be used)
+    pub surplus_psk: u32,
     /// per mille of sessions in which both parties hold the SAME static key pair (shared service
     /// identity / self-connection; Noise has no rule against it)
     pub same_statics: u32,
@@ -66,6 +75,9 @@ impl Default for CfgOpts {
             evil_pub: 0,
             noncanonical_rs: 0,
             same_statics: 0,
+            surplus_psk: 0,
+            deny_any: 0,
+            deny_rng: 0,
             force_name: None,
             force_backend: None,
         }
@@ -229,6 +241,15 @@ pub fn gen_session(rng: &mut Rng, name: &str, opts: &CfgOpts, seed_salt: u64) ->
                 p.at_boot = false;
             }
         }
+        if opts.surplus_psk > 0 && rng.chance(opts.surplus_psk as u64, 1000) {
+            // one or two PSKs in slots the name does not mention (appended after the real ones)
+            for _ in 0..rng.range(1, 2) {
+                let idx = rng.below(10) as u8;
+                if !proto.psk_mods.contains(&idx) && !mypsks.iter().any(|c| c.idx == idx) {
+                    mypsks.push(PskCfg { idx, key: rng.bytes(32), at_boot: true });
+                }
+            }
+        }
         NodeCfg {
             name: name.to_string(),
             initiator,
@@ -247,6 +268,7 @@ pub fn gen_session(rng: &mut Rng, name: &str, opts: &CfgOpts, seed_salt: u64) ->
             deny: None,
             evil_static_pub: false,
             build_order: rng.below(128) as u8,
+            deny_at: 0,
         }
     };
     let mut a = mk(true, rng);
@@ -282,6 +304,15 @@ pub fn gen_session(rng: &mut Rng, name: &str, opts: &CfgOpts, seed_salt: u64) ->
                 a.rs_pub = None;
             }
         }
+    }
+    if opts.deny_any > 0 && rng.chance(opts.deny_any as u64, 1000) {
+        let n = if rng.chance(1, 2) { &mut a } else { &mut b };
+        n.deny = Some(*rng.pick(&[crate::seam::Prim::Dh, crate::seam::Prim::Hash, crate::seam::Prim::Cipher]));
+        n.deny_at = rng.below(4) as u8;
+    }
+    if opts.deny_rng > 0 && rng.chance(opts.deny_rng as u64, 1000) {
+        let n = if rng.chance(1, 2) { &mut a } else { &mut b };
+        n.deny = Some(crate::seam::Prim::Rng);
     }
     (a, b)
 }
@@ -893,12 +924,12 @@ impl<'a> Driver<'a> {
             let which = match self.rng.below(6) {
                 0 | 1 => RekeyKind::Outgoing,
                 2 | 3 => RekeyKind::Incoming,
-                4 => RekeyKind::ManualI(self.rng.below(4) as u8),
+                4 => RekeyKind::ManualI(self.rng.below(8) as u8),
                 _ => {
                     if self.rng.chance(1, 3) {
-                        RekeyKind::ManualBoth(self.rng.below(4) as u8)
+                        RekeyKind::ManualBoth(self.rng.below(8) as u8)
                     } else {
-                        RekeyKind::ManualR(self.rng.below(4) as u8)
+                        RekeyKind::ManualR(self.rng.below(8) as u8)
                     }
                 },
             };
@@ -913,7 +944,7 @@ impl<'a> Driver<'a> {
                 step!(self, Op::Read { node: rcv as u8, src: Src::Next, mutation: Mutation::None, out: Buf::Ample, nonce: NonceSel::Auto });
             }
             if self.rng.chance(1, 3) {
-                let id = self.rng.below(4) as u8;
+                let id = self.rng.below(8) as u8;
                 let which = if self.rng.chance(1, 4) {
                     RekeyKind::ManualBoth(id)
                 } else if self.w.cfg.nodes[snd].initiator {
